@@ -154,6 +154,73 @@ def judge_all(ctx, case, rng, matrix_cell=None):
         write_refusal(ctx, case, cfgd, cfg, T, rng)
 
 
+LONG_LENGTHS = [255, 256, 257, 300, 511, 512, 513, 1000, 4095, 4096, 4097, 9000]
+
+
+def long_case(rng, ek, form, L):
+    g = gen.Gen(rng)
+    elem = elem_kinds(g)[ek]()
+    fields = [F("n", N_int("uint16"), len_src=True)]
+    if form == "null":
+        ln = L_NULL
+    elif form == "expr":
+        ln = L_expr(rng.choice(["n", "n + 0", "n * 1"]))
+    else:
+        ln = L_fixed(L)
+    fields.append(F("arr", N_array(elem, ln)))
+    fields.append(F("tail", N_int("uint16")))
+    fields.append(F("arr2", N_array(elem, ln if form != "fixed" else L_fixed(3))))
+    fields.append(F("end", N_int("uint8")))
+    top = N_struct(fields, name="T", decl="top")
+    g.decls.append({"d": "struct", "node": top})
+    case = gen.finish_case(g.decls, top, g.consts, {f"long:{ek}x{form}"})
+    case["named"] = {}
+    return case, elem
+
+
+def long_arrays(ctx, jobs):
+    """Arrays whose length crosses typical block / buffer boundaries (the value of what FOLLOWS the array and the
+    stream position are part of the judgement)."""
+    for ek, form, L in jobs:
+        if ctx.out_of_time():
+            break
+        rng = ctx.rng("long", ek, form, L)
+        case, elem = long_case(rng, ek, form, L)
+        top = case["top"]
+        for cfgd in engine.std_configs(rng, False, top)[:: 2 if not ctx.thorough else 1]:
+            cfg = engine.mcfg(case, cfgd["endian"], cfgd["align"], cfgd["ptr"])
+            cs, err = engine.load_cfg(ctx, case, cfgd)
+            if cs is None:
+                ctx.violation("load", f"load-fails:{type(err).__name__}", case_detail(case, cfg=cfgd, error=repr(err)))
+                continue
+
+            def arr(n):
+                node = N_array(elem, L_fixed(n))
+                nz = form == "null"
+                if elem["k"] == "char":
+                    return model.rand_bytes(rng, n, no_nul=nz)
+                if elem["k"] == "wchar":
+                    return model.rand_wstr(rng, n, no_nul=True if nz else False)
+                return [model.random_value(elem, rng, cfg, nonzero=nz) for _ in range(n)]
+
+            n2 = L if form != "fixed" else 3
+            v = {"n": L if form == "expr" else rng.randrange(65536), "arr": arr(L), "tail": rng.randrange(65536),
+                 "arr2": arr(n2 if form != "null" else rng.choice([0, 1, L])), "end": rng.randrange(256)}
+            try:
+                data, mask = model.dump(top, v, cfg)
+            except model.ModelValueError:
+                continue
+            inp = model.garbage_fill(data, mask, rng) + bytes(rng.randrange(256) for _ in range(16))
+            ctx.cell(f"long:{ek}x{form}")
+            ctx.event("long_array_elements", L)
+            r, exp = engine.judge_parse(ctx, case, cfgd, cfg, cs.T, inp, label="long")
+            if r[0] == "ok" and exp[0] == "ok" and not model.has_nan(exp[1]):
+                d = r[1].dumps()
+                if d != data and not gen.has_leb(top):
+                    ctx.violation("dump", "array-dump-differs-from-model",
+                                  case_detail(case, cfg=cfgd, data=inp[:64], got=d[:64], want=data[:64], length=L))
+
+
 def direct_use(ctx, rng):
     """cs.<type>[n](bytes) without a structure around it."""
     for endian in "<>":
@@ -249,6 +316,12 @@ def run(ctx):
         case = matrix_case(rng, ek, form)
         judge_all(ctx, case, rng, matrix_cell=f"{ek}x{form}")
         ctx.sample({"text": case["text"]}, limit=2)
+    # long arrays around block/buffer boundaries
+    ljobs = [(ek, form, L) for ek in ("char", "wchar", "packed", "wide", "enum", "leb", "intstruct")
+             for form in ("null", "expr", "fixed") for L in LONG_LENGTHS]
+    if not ctx.thorough:
+        ljobs = [j for j in ljobs if j[2] in (255, 256, 257, 1000, 4097)]
+    long_arrays(ctx, ljobs[ctx.shard::ctx.nshards])
     # generated array-heavy definitions
     for i in range(N_CASES[ctx.tier]):
         if ctx.out_of_time():
